@@ -59,9 +59,12 @@ def gen_scenario(rng, feat, mode, ntasks=1, flags=None, big=False):
             c = rng.weighted([("a", 10), ("y", 3), ("s", 4 if spawn and depth < 3 and len(bodies) < (8 if big else 5) else 0),
                               ("f", 3 if flags else 0), ("w", 3 if flags else 0), ("j", 2 if flags else 0), ("c", 1)])
             if c == "a":
-                steps.append("a%d" % new_op())
+                # rarely re-use an operation id / name one that does not exist: the driver skips such awaits
+                steps.append("a%d" % (rng.below(len(ops) + 2) if (ops and rng.chance(1, 25)) else new_op()))
             elif c == "y":
                 steps.append("y")
+            elif c == "s" and len(bodies) > 1 and rng.chance(1, 20):
+                steps.append("s%d" % rng.below(len(bodies)))   # spawning an existing body again is skipped
             elif c == "s":
                 bodies.append(None)
                 nb = len(bodies) - 1
